@@ -14,7 +14,70 @@ import (
 	rt "github.com/oasisprotocol/ed25519/internal/zzverifrt"
 )
 
-func init() { rt.Register("C06", jobC06) }
+func init() {
+	rt.Register("C06", jobC06)
+	rt.Register("C06cpu", func(c *rt.Ctx) { jobCPU(c, "C06") })
+	rt.Register("C17cpu", func(c *rt.Ctx) { jobCPU(c, "C17") })
+}
+
+// jobCPU runs in a process that was STARTED with a given number of usable processors (taskset; the
+// unit's parameter cpus=N): runtime.NumCPU() - fixed at start-up - is what a library would size a worker
+// pool by. Full chunks, chunk + remainder and two chunks, all-valid and with one bad entry at the
+// first / middle / each of the last four positions and in the second chunk: per-entry results equal
+// single verification and the model (C06); all-valid batches need no fallback and a bad entry is never
+// accepted by the batch equation (C17).
+func jobCPU(c *rt.Ctx, prop string) {
+	c.Require("cpus")
+	c.Extra("numcpu_seen_by_worker", int64(runtime.NumCPU()))
+	shapes := []struct {
+		n   int
+		bad []int
+	}{{64, nil}, {64, []int{0}}, {64, []int{31}}, {64, []int{60}}, {64, []int{61}}, {64, []int{62}}, {64, []int{63}}, {68, nil}, {68, []int{67}}, {128, []int{127}}, {130, []int{64, 129}}, {132, []int{128}}, {8, []int{7}}, {5, nil}}
+	for si, sh := range shapes {
+		for vi, vs := range vAll {
+			for _, zip := range []bool{false, true} {
+				if !c.Take() {
+					continue
+				}
+				c.Class("cpus")
+				c.Distinct(fmt.Sprintf("cpu %d %d %v", si, vi, zip), true)
+				es := make([]triple, sh.n)
+				ks := make([]string, sh.n)
+				for i := range es {
+					es[i], ks[i] = mkEntry("good", i, vs), "good"
+				}
+				for j, p := range sh.bad {
+					k := c06Kinds[1+(si+j+vi)%4]
+					es[p], ks[p] = mkEntry(k, p, vs), k
+				}
+				if prop == "C06" {
+					checkBatch(c, fmt.Sprintf("cpus NumCPU=%d", runtime.NumCPU()), es, ks, vs, zip, (si+vi)%2, fmt.Sprintf("cpu-%d", si))
+					continue
+				}
+				fallbacks := 0
+				verifOnFallback = func(off, bs int) { fallbacks++ }
+				all, valid, err, pv := implBatchReader(es, vs, zip, rt.NewRng(c.Seed, fmt.Sprint("cpu", si)))
+				verifOnFallback = nil
+				c.Step(1)
+				bad := pv != nil || err != nil || len(valid) != sh.n
+				isBad := map[int]bool{}
+				for _, p := range sh.bad {
+					isBad[p] = true
+				}
+				for i, v := range valid {
+					bad = bad || v == isBad[i]
+				}
+				if len(sh.bad) == 0 && fallbacks != 0 {
+					bad = true
+				}
+				if bad || (len(sh.bad) == 0 && !all) {
+					c.Violation("C17 cpus batch equation", fmt.Sprintf("process started with %d usable processors: batch of %d (%s, zip215=%v) with bad entries at %v: valid=%v all=%v err=%v panic=%v fallbacks=%d (an all-valid batch must pass the equation, a bad entry must never)", runtime.NumCPU(), sh.n, vs, zip, sh.bad, valid, all, err, pv, fallbacks),
+						map[string]interface{}{"numcpu": runtime.NumCPU(), "n": sh.n, "bad": fmt.Sprint(sh.bad)})
+				}
+			}
+		}
+	}
+}
 
 var c06Kinds = []string{"good", "wrong-msg", "R-bitflip", "S-bitflip", "key-bitflip", "S+L", "S-top-slice-valid", "small-order-key", "small-order-R", "undecodable-key", "undecodable-R", "key31", "key-nil", "sig63", "sig-nil", "bad-prehash-or-nil-msg", "mixed-order-valid"}
 
@@ -958,7 +1021,10 @@ func jobC06(c *rt.Ctx) {
 		runtime.GOMAXPROCS(old)
 	}
 	for _, g := range []int{1, 4, 16, 32} {
-		for _, k := range []int{0, 1, 2, 3, 4, 5, 6, 8} {
+		for _, k := range []int{0, 1, 2, 3, 4, 5, 6, 8, 15, 16, 17, 31, 33, 63, 64, 65, 100, 128, 129, 257} {
+			if k > 8 && g != 16 && !c.Thorough() {
+				continue
+			}
 			if !c.Take() {
 				continue
 			}
@@ -1001,6 +1067,8 @@ func jobC06(c *rt.Ctx) {
 			checkBatch(c, fmt.Sprintf("level-env inflight=%d GOMAXPROCS=%d", k, g), es, ks, vPure, false, 0, fmt.Sprintf("inf-%d-%d", g, k))
 			es2, ks2 := build(64, map[int]string{60: "wrong-msg"}, vPure)
 			checkBatch(c, fmt.Sprintf("level-env inflight=%d GOMAXPROCS=%d", k, g), es2, ks2, vPure, true, 1, fmt.Sprintf("inf2-%d-%d", g, k))
+			es4, ks4 := build(8, map[int]string{2: "wrong-msg"}, vPure)
+			checkBatch(c, fmt.Sprintf("level-env inflight=%d GOMAXPROCS=%d", k, g), es4, ks4, vPure, false, 0, fmt.Sprintf("inf4-%d-%d", g, k))
 			third := variantSpec{ref.Ctx, "third-ctx"}
 			es3, ks3 := build(8, nil, third)
 			checkBatch(c, fmt.Sprintf("level-env inflight=%d GOMAXPROCS=%d", k, g), es3, ks3, third, false, 1, fmt.Sprintf("inf3-%d-%d", g, k))
@@ -1018,6 +1086,102 @@ func jobC06(c *rt.Ctx) {
 				}
 			}
 			runtime.GOMAXPROCS(old)
+		}
+	}
+	// level long-msg: every kind of bad entry next to honest entries that carry LONG messages (16 KiB, 40000
+	// bytes, 70000 bytes), in the first chunk, at the start of the second and inside it: per-entry hashes
+	// kept from one loop or chunk to the next, early vetting of long messages and the like must agree with
+	// single verification; and the long-message entry itself spoilt in every way (S + L under ZIP-215 ...)
+	c.Require("level-long-msg")
+	for li, L := range []int{16384, 40000, 70000} {
+		for ki, kind := range c06Kinds[1:] {
+			for pi, p := range []int{1, 64, 66} {
+				oi := (li + ki + pi) % len(opts)
+				o := opts[oi]
+				if o.vs.v == ref.Ph {
+					o = opts[(oi+2)%len(opts)]
+					if o.vs.v == ref.Ph {
+						o = opts[0]
+					}
+				}
+				if !c.Thorough() && (li+ki+pi)%2 == 1 {
+					continue
+				}
+				if !c.Take() {
+					continue
+				}
+				n := 70
+				es, ks := build(n, nil, o.vs)
+				for _, q := range []int{0, 3, 65, 67, 69} {
+					es[q] = honestTriple(5300+q, msgLen(L+q, q), o.vs)
+				}
+				spoilt := mkEntry(kind, p, o.vs)
+				if ki%2 == 0 && len(spoilt.sig) == 64 && len(spoilt.key) == 32 && kind != "wrong-msg" && kind != "bad-prehash-or-nil-msg" {
+					// the spoilt entry itself carries a long message: rebuild the kind on a long-message base
+					base := honestTriple(5300+p, msgLen(L+1, p), o.vs)
+					switch kind {
+					case "S+L":
+						S := ref.LE(base.sig[32:])
+						S.Add(S, ref.L)
+						spoilt = triple{base.key, base.msg, append(append([]byte{}, base.sig[:32]...), ref.ToLE(S, 32)...)}
+					case "S-bitflip":
+						sg := append([]byte{}, base.sig...)
+						sg[40] ^= 2
+						spoilt = triple{base.key, base.msg, sg}
+					case "R-bitflip":
+						sg := append([]byte{}, base.sig...)
+						sg[3] ^= 2
+						spoilt = triple{base.key, base.msg, sg}
+					}
+				}
+				es[p], ks[p] = spoilt, kind
+				c.Class("level-long-msg")
+				c.Distinct(fmt.Sprintf("longmsg %d %d %d", L, ki, p), true)
+				checkBatch(c, "level-long-msg", es, ks, o.vs, o.zip, (li+ki+pi)%2, fmt.Sprintf("lm-%d-%d-%d", L, ki, p))
+			}
+		}
+	}
+	// level huge: a batch of 2^22 + 68 entries (65537 chunks and a batched remainder) that is almost
+	// entirely nil entries (each chunk is refused at its first signature, at no cost), with honest and
+	// spoilt entries in the LAST chunks: chunk numbers and offsets beyond 16 bits
+	c.Require("level-huge")
+	for hi, hn := range []int{1<<22 + 68, 1<<22 + 3} {
+		if !c.Take() {
+			continue
+		}
+		c.Class("level-huge")
+		c.Distinct(fmt.Sprintf("huge %d", hn), true)
+		pubs := make([]PublicKey, hn)
+		msgs := make([][]byte, hn)
+		sigs := make([][]byte, hn)
+		tail := 70
+		want := make([]bool, tail)
+		for j := 0; j < tail; j++ {
+			i := hn - tail + j
+			t := mkEntry("good", j, vPure)
+			want[j] = true
+			if j%5 == 3 {
+				t, want[j] = mkEntry(c06Kinds[1+j%4], j, vPure), false
+			}
+			pubs[i], msgs[i], sigs[i] = t.key, t.msg, t.sig
+		}
+		all, valid, err := VerifyBatch(rt.NewRng(c.Seed, "huge"), pubs, msgs, sigs, &Options{ZIP215Verify: hi == 1})
+		c.Step(1)
+		bad := err != nil || all || len(valid) != hn
+		if !bad {
+			for j := 0; j < tail; j++ {
+				bad = bad || valid[hn-tail+j] != want[j]
+			}
+			for i := 0; i < hn-tail && !bad; i += 4099 {
+				bad = valid[i]
+			}
+		}
+		if bad {
+			got := ""
+			if len(valid) == hn {
+				got = fmt.Sprint(valid[hn-tail:])
+			}
+			c.Violation("C06 level-huge", fmt.Sprintf("VerifyBatch of %d entries (nil entries, then %d real ones): err=%v all=%v, the last %d entries reported %s, single verification says %v", hn, tail, err, all, tail, got, want), map[string]interface{}{"n": hn})
 		}
 	}
 	// level compensating: TWO bad entries whose errors cancel in the batch equation if their randomisers
